@@ -31,6 +31,7 @@ type Report struct {
 	Runs       int                `json:"runs"`
 	Steps      int                `json:"steps"`
 	SimTimeNs  int64              `json:"sim_time_ns"`
+	Cover      []string           `json:"cover,omitempty"` // distinct elements of stated finite input universes that were evaluated
 	Sigs       []string           `json:"sigs"` // distinct signatures of non-trivial evaluations (hex)
 	Faults     map[string]int     `json:"faults"`
 	Probes     map[string]int     `json:"probes"`
@@ -142,6 +143,7 @@ func main() {
 	}
 
 	sigs := map[uint64]bool{}
+	cover := map[string]bool{}
 	classes := map[string]bool{}
 	var det uint64 = 1469598103934665603
 
@@ -180,6 +182,9 @@ func main() {
 			rep.Nontrivial++
 			sigs[o.Sig] = true
 		}
+		for _, cv := range o.Cover {
+			cover[cv] = true
+		}
 		cls := ""
 		if o.V != nil {
 			cls = o.V.Oracle + "/" + o.V.Class
@@ -215,6 +220,10 @@ func main() {
 			rep.SiteRuns[harness.Sites.Sites[i]] = n
 		}
 	}
+	for cv := range cover {
+		rep.Cover = append(rep.Cover, cv)
+	}
+	sort.Strings(rep.Cover)
 	for sg := range sigs {
 		rep.Sigs = append(rep.Sigs, fmt.Sprintf("%x", sg))
 	}
